@@ -377,6 +377,19 @@ func (w *W) c09Streams(th bool) []*c09Stream {
 		lines = append(lines, `{"b":2}`)
 		add(c09Build(fmt.Sprintf("blank-dense-%d", n), lines, "\n", true))
 	}
+	// a little more than one 10 MiB read of short lines: the first chunk is a completely full read
+	// buffer plus the tail of the line it ends in (a few hundred bytes: within whatever slack the
+	// chunk buffer has beyond the read size), the second chunk is what is left
+	{
+		var lines []string
+		total := 0
+		for total < 10<<20+300<<10 {
+			d := string(gen.Doc(r.Split(), gen.DocCfg{Size: 100 + r.Intn(800), MaxDepth: 3, MaxFan: 6, Esc: 10, NoLF: true}))
+			lines = append(lines, d)
+			total += len(d) + 1
+		}
+		add(c09Build("short-lines-over-10MiB", lines, "\n", true))
+	}
 	// one line larger than the 10 MiB read buffer, fetched by the read-until-newline step
 	big := `{"big":"` + strings.Repeat("x", 11<<20) + `"}`
 	add(c09Build("line-over-10MiB", []string{`{"a":1}`, big, `{"z":2}`}, "\n", true))
